@@ -78,6 +78,15 @@ class C09Monitor(Monitor):
                         f"C09/centroid-stale:{typ}",
                         f"{typ} {d.id} after {d.metaepoch_count} metaepochs: centroid {None if c is None else np.asarray(c).tolist()} != mean of current population {m.tolist()}",
                     )
+                elif isinstance(c, np.ndarray) and c.flags.writeable and (sum(map(ord, d.id)) + d.metaepoch_count) % 2 == 0:
+                    # a caller that computes on the returned array in place (offset = deme.centroid; offset -= ref): the deme's
+                    # centroid is still the mean of its population afterwards
+                    c -= 1.0
+                    c2 = d.centroid
+                    x.flag("returned centroid modified in place by the caller")
+                    if c2 is None or not np.allclose(np.asarray(c2, dtype=float), m, rtol=1e-12, atol=0.0):
+                        x.violate(f"C09/centroid-aliased:{typ}", f"{typ} {d.id}: after the caller changed the array it got from .centroid in place, the deme reports {np.asarray(c2).tolist()}, "
+                                  f"mean of current population {m.tolist()}")
         elif kind == "round_begin":
             self.means = {d.id: (true_mean(d), d.is_active, l, d.metaepoch_count) for l, d in tree.all_demes}
             self.pops = {d.id: ([np.asarray(i.genome, dtype=float) for i in d.current_population], [float(i.fitness) for i in d.current_population]) for l, d in tree.all_demes}
